@@ -5,7 +5,7 @@ from hypothesis import strategies as st
 
 from .. import gen, model
 from ..core import SKIP, Sub
-from ..util import arr, compare, flags
+from ..util import carr, arr, compare, flags
 
 ID = "C13"
 RULE = ("density_inversion_test: profiles n=0..25 with depth sequences down/up/down-up/stationary/repeated on a dyadic "
@@ -113,7 +113,7 @@ def check_density(case, rec):
     if f is not None:
         kw["fail_threshold"] = f
     site = "qartod.density_inversion_test"
-    got = flags(rec, site, rec.call(site, _di(), arr(rho), arr(z), **kw), n)
+    got = flags(rec, site, rec.call(site, _di(), carr(case, rho), carr(case, z), **kw), n)
     if got is SKIP:
         return
     compare(rec, site, got, model.model_density(rho, z, s, f))
@@ -166,7 +166,7 @@ def check_pressure(case, rec):
 
 
 SUBS = [
-    Sub("density", density_case, check_density, quick=4000, thorough=80000),
+    Sub("density", lambda tier: gen.with_carrier(density_case(tier)), check_density, quick=4000, thorough=80000),
     Sub("pressure", pressure_case, check_pressure, quick=2500, thorough=40000),
 ]
 REQUIRED_CLASSES = ["density:delta_near_threshold", "density:constant_depth_pair", "density:upcast",
